@@ -444,7 +444,7 @@ theorem Evals.assign {σ ρ x e l v σ₁ σ'} (he : Evals σ ρ e (.ok v) σ₁
   obtain ⟨_, N, h⟩ := he.out
   exact Stable.of_succ (by simp) N fun n hn => by show evalExpr (n+1) _ _ _ = _; rw [evalExpr, h n hn]; simp [hs]
 theorem Evals.assign_unbound {σ ρ x e l v σ₁ σ'} (he : Evals σ ρ e (.ok v) σ₁) (hs : σ₁.set ρ x v = (false, σ')) :
-    Evals σ ρ (.assign x e l) (.error (.unbound, none)) σ' := by
+    Evals σ ρ (.assign x e l) (.error (.unbound, l)) σ' := by
   obtain ⟨_, N, h⟩ := he.out
   exact Stable.of_succ (.error_of (by simp)) N fun n hn => by
     show evalExpr (n+1) _ _ _ = _; rw [evalExpr, h n hn]; simp [hs]
@@ -610,7 +610,7 @@ theorem Applies.closure_tail_nonproc {f targs tenv σ₁ fv σ₂ vs σ₃}
     (ha : arityOk lam.formals.fixed.length lam.formals.rest.isSome args.length = true)
     (hs : AppliesScheme σ lam cenv args (.ok (.tailCall f targs tenv)) σ₁)
     (hf : Evals σ₁ tenv f (.ok fv) σ₂) (hargs : EvalsArgs σ₂ tenv targs (.ok vs) σ₃)
-    (hp : procArity fv = none) : Applies σ (.closure lam cenv) args env (.error (.nonProcedure, none)) σ₃ := by
+    (hp : procArity fv = none) : Applies σ (.closure lam cenv) args env (.error (.nonProcedure, f.loc)) σ₃ := by
   obtain ⟨_, N₁, h₁⟩ := hs.out; obtain ⟨_, N₂, h₂⟩ := hf.out; obtain ⟨_, N₃, h₃⟩ := hargs.out
   exact Stable.of_succ (.error_of (by simp)) (max (max N₁ N₂) N₃) fun n hn => by
     show applyLoop (n+1) _ _ _ _ = _
